@@ -178,6 +178,9 @@ def gen(rng, tier):
         a = gen_doc(rng, hostile)
         b = mutate(rng, a, hostile) if rng.random() < 0.8 else gen_doc(rng, hostile)
         cases.append({"f": a, "t": b, "opts": rng.choice(OPT_SETS), "jl": rng.random() < 0.5, "jd": rng.random() < 0.5})
+    for _ in range(n // 6):
+        a, b = S.collide(rng, gen_doc(rng, rng.choice([0.0, 0.3])))
+        cases.append({"f": a, "t": b, "opts": rng.choice(OPT_SETS), "jl": rng.random() < 0.5, "jd": rng.random() < 0.5})
     for _ in range(n // 8):
         a = gen_doc(rng, rng.choice([0.0, 0.5, 1.0]))
         cases.append({"f": a, "t": S.shuffled(rng, a), "opts": rng.choice(OPT_SETS), "jl": rng.random() < 0.5,
